@@ -123,10 +123,38 @@ class Must:
         return out
 
     # ---------------------------------------------------------------- normalisation
-    def atoms_at(self, p):
+    def atoms_at(self, p, _seen=None):
         out = []
         for d, vals, comp in self.raw_at(p):
             out.extend(self.normalise(d, vals, comp))
+        return self._expand_phi(out, _seen if _seen is not None else {p})
+
+    def _expand_phi(self, atoms, seen):
+        """An atom about a value merged from several definitions (`phi`) that only ONE of the definitions can satisfy
+        implies everything that held where that definition was made (e.g. `check()?` after the helper `check` was
+        inlined: the result is Ok only when it was assigned in the block guarded by the helper's test)."""
+        out = list(atoms)
+        for a in atoms:
+            if a[0] not in ("ok", "notok", "true", "false", "variant") or not isinstance(a[1], tuple) or a[1][0] != "phi":
+                continue
+            phi = a[1]
+            if len(phi) < 4 or len(phi[2]) != len(phi[3]):
+                continue
+            verdicts = [_alt_verdict(alt, a) for alt in phi[2]]
+            if verdicts.count(True) + verdicts.count(None) != 1 or verdicts.count(None) > 1:
+                continue
+            if None in verdicts and True in verdicts:
+                continue
+            i = verdicts.index(True) if True in verdicts else verdicts.index(None)
+            if verdicts[i] is None and len(verdicts) < 2:
+                continue
+            db = phi[3][i]
+            if db is None or db in seen or not isinstance(db, int):
+                continue
+            seen.add(db)
+            for b in self.atoms_at(db, seen):
+                if b not in out:
+                    out.append(b)
         return out
 
     def edge_atoms(self, d, s):
@@ -147,6 +175,29 @@ class Must:
     def discr_names(self, term_op, vals):
         """Map discriminant values to variant names using type info where possible."""
         return None
+
+
+def _alt_verdict(alt, atom):
+    """Can the definition `alt` of a merged value satisfy `atom`?  True / False / None (unknown)."""
+    k = atom[0]
+    if k in ("ok", "notok"):
+        v = None
+        if alt[0] == "agg" and alt[1].split("::")[-1] in ("Result", "Option"):
+            v = alt[2] in ("Ok", "Some")
+        elif alt[0] == "from_residual":
+            v = False
+        if v is None:
+            return None
+        return v == (k == "ok")
+    if k in ("true", "false"):
+        if alt[0] == "const" and isinstance(alt[1], int):
+            return bool(alt[1]) == (k == "true")
+        return None
+    if k == "variant":
+        if alt[0] == "agg":
+            return (alt[2] in atom[2]) != atom[3]
+        return None
+    return None
 
 
 def normalise_atom(m, term, dty, vals, comp, op=None):
